@@ -35,8 +35,8 @@ TRUSTED_BASE = [
     'INCOMING_CHUNK_SIZE=1), lib/netio.c; stubbed: netnwrite/checkreply/log_write/net_conn_shutdown (tx), queue_init/queue_envelope/'
     'queue_result/queue_reset/freedata/tarpit and the dispatcher rule for comstate (rx); read()/write()/writev()/poll() redirected; '
     'malloc filled with 0xEE; msgdata placed against a PROT_NONE page; gcc 12 -O1 ASan+UBSan vs. production build',
-    'the boolean checker spec_ok_C19_rx (used only to look for a failing input on C outputs) is not proved equivalent to rx_delivered; '
-    'spec_ok_C19_tx is proved complete for tx_ok (C19_tx_checker), not sound',
+    'the boolean checker spec_ok_C19_rx (used only to look for a failing input on C outputs) is a direct transcription of rx_delivered / '
+    'no_env_after_fail but not proved equivalent to them; spec_ok_C19_tx is proved to decide tx_ok (C19_tx_checker)',
 ]
 ASSUMPTIONS = [
     'tx: chunk size >= 16 (the minimum that fits "BDAT n LAST CRLF" plus one payload octet; smaller values of control/chunksizeremote make '
